@@ -170,15 +170,26 @@ def shape_routes(ctx, rng):
                 ok_ = False
                 ctx.notes.append(f"shape-route sanity {route}/{call}: {type(e).__name__}: {e}")
             ctx.require(f"a well-shaped dataset given through the {route} is accepted by {call}()", ok_)
+    # both arrays mis-shaped ALIKE (they agree with each other and hold the right number of values, but not as (n, N, 3))
+    both = {"both: atom axis split (n, 2, N/2, 3)": (n, 2, N // 2, 3) if N % 2 == 0 else None, "both: extra unit axis (n, N, 1, 3)": (n, N, 1, 3), "both: extra unit axis (n, 1, N, 3)": (n, 1, N, 3),
+            "both: snapshots split (2, n/2, N, 3)": (2, n // 2, N, 3), "both: flat rows (n, 3N)": (n, 3 * N), "both: components first (n, 3, N)": (n, 3, N)}
+    for kname, shp in both.items():
+        if shp is not None:
+            kinds[kname] = shp
     for kname, bad in kinds.items():
         if bad is None:
             continue
-        for which in ("displacements", "forces"):
+        for which in (("both",) if kname.startswith("both:") else ("displacements", "forces")):
             for route in ("constructor", "setters", "setter-after-valid"):
                 for call in ("solve", "run"):
                     ctx.case({"shape_route": kname, "array": which, "route": route, "call": call}, nontrivial=True)
                     ctx.count("shape-route:" + route)
-                    dd, ff = (bad, f0) if which == "displacements" else (d0, bad)
+                    if which == "both":
+                        shp_, bad = bad if isinstance(bad, tuple) else np.shape(bad), None
+                        dd, ff = d0.reshape(shp_), f0.reshape(shp_)
+                        bad = dd
+                    else:
+                        dd, ff = (bad, f0) if which == "displacements" else (d0, bad)
                     raised = None
                     try:
                         if route == "constructor":
@@ -189,7 +200,11 @@ def shape_routes(ctx, rng):
                             o.forces = ff
                         else:
                             o = Symfc(at, displacements=d0, forces=f0)
-                            setattr(o, which, bad)
+                            if which == "both":
+                                o.displacements = dd
+                                o.forces = ff
+                            else:
+                                setattr(o, which, bad)
                         o.basis_set = dict(basis)
                         o._force_constants = {k: v.copy() for k, v in ref.items()}     # an object that already holds results
                         if call == "solve":
